@@ -64,8 +64,10 @@ impl SplitPacket {
                     true => 1248,
                 };
 
+                // Only the first packet of a compressed response carries the decompressed
+                // size and the CRC32 checksum
                 let is_compressed = ((id >> 31) & 1u32) == 1u32;
-                let decompressed = match is_compressed {
+                let decompressed = match is_compressed && number == 0 {
                     false => None,
                     true => Some((buffer.read()?, buffer.read()?)),
                 };
